@@ -36,7 +36,7 @@ def check(ctx):
 
 def check_ctor(ctx, F, R):
     new = F.one(crate="mina_core", name="new", impl_self_adt=T.ANIM_ADT)
-    eng = pse.Engine(F)
+    eng = T.engine(F)
     paths = eng.run(new)
     ctx.count_paths(paths, new)
     blended = 0
@@ -77,7 +77,7 @@ def check_ctor(ctx, F, R):
         "timelines": lambda t: "EnumMap" in t,
     })
     build = F.one(crate="mina_core", name="build", impl_self_adt=BUILDER)
-    eng = pse.Engine(F, inline=lambda fn, body: body["name"] != "new")
+    eng = T.engine(F, inline=lambda fn, body: body["name"] != "new")
     for p in eng.run(build):
         cs = calls(p, lambda e: e["fn"]["name"] == "new" and "MappedTimelineAnimator" in e["callee"])
         ok = len(cs) == 1 and tuple(cs[0]["descs"]) == (("field", ("param", 1), BR["timelines"]),
@@ -89,7 +89,7 @@ def check_ctor(ctx, F, R):
                % [[show(d) for d in c["descs"]] for c in cs], build["span"], trace_of(p), what="builder-build-wrong")
     for meth, role in (("from_state", "state"), ("from_values", "values")):
         b = F.one(crate="mina_core", name=meth, impl_self_adt=BUILDER)
-        eng = pse.Engine(F)
+        eng = T.engine(F)
         for p in eng.run(b):
             if p.outcome != "return":
                 continue
@@ -100,7 +100,7 @@ def check_ctor(ctx, F, R):
                    "%s must store its argument in the %s field and leave the others; result %s" % (meth, role, show(p.ret)),
                    b["span"], trace_of(p), what="builder-setter-wrong")
     b = F.one(crate="mina_core", name="on", impl_self_adt=BUILDER)
-    eng = pse.Engine(F)
+    eng = T.engine(F)
     for p in eng.run(b):
         if p.outcome != "return":
             continue
@@ -125,7 +125,7 @@ def _tl_loc(p, R):
 def check_getters(ctx, F, R):
     for meth, role in (("current_state", "current_state"), ("current_values", "current_values")):
         b = F.one(crate="mina_core", name=meth, impl_self_adt=T.ANIM_ADT, impl_trait=T.SA_TRAIT)
-        eng = pse.Engine(F)
+        eng = T.engine(F)
         paths = eng.run(b)
         ctx.count_paths(paths, b)
         ok = len(paths) == 1 and paths[0].ret == ("ref", ("M", ("param", 1)), (("field", R[role]),), False) \
@@ -141,7 +141,7 @@ def check_maplike_impl(ctx, F):
         bs = F.find(crate="mina_core", name=meth, impl_trait="mina_core::animator::MapLike")
         for b in bs:
             n += 1
-            eng = pse.Engine(F, models={"core::option::Option::<T>::as_ref": lambda *a: None,
+            eng = T.engine(F, models={"core::option::Option::<T>::as_ref": lambda *a: None,
                                         "core::option::Option::<T>::as_mut": lambda *a: None})
             paths = eng.run(b)
             ctx.count_paths(paths, b)
